@@ -148,6 +148,7 @@ pub fn gen_lib_case(t: &mut Tape) -> LibCase {
         after: t.small(2),
         passthru: t.chance(1, 12),
         binary: if t.bool() { Bin::Quit(0) } else { Bin::Convert(0) },
+        warm: crate::gen::gen_warm(t, Term::Lf),
         ..SCfg::default()
     };
     let strat = match t.weighted(&[3, 6, 1, 1]) {
@@ -251,6 +252,7 @@ pub fn check_lib(case: &LibCase) -> Verdict {
         let after = lines.iter().any(|l| l.start > nul && matches_line(l));
         info.nontrivial = before && after;
         info.class_if(nul == 0, "nul_first_byte");
+        info.class_if(case.cfg.warm.is_some(), "searcher_reused_after_another_input");
         info.class_if(nul + 1 == input.len() || nul + 2 == input.len(), "nul_last_byte");
         info.class_if((65533..=65539).contains(&nul), "nul_at_64KiB_boundary");
         info.class_if(nul > 65539, "nul_beyond_first_buffer");
